@@ -405,27 +405,30 @@ def handleFrames (P : Params σ) (s : St σ) (p : Pkt) : List Frame.Parsed → S
     | (s, some e) => (s, some e)
     | (s, none) => handleFrames P s p fs
 
+/-- `decrypt_packet` after the decryptor was looked up (`d? = none`: the name `decryptor` is unbound) -/
+def decryptRest (P : Params σ) (s : St σ) (p : Pkt) (d? : Option Dec) : St σ × Option PyErr :=
+  match getFullPn s p with
+  | (s, .error e) => (s, some e)
+  | (s, .ok pn) =>
+    -- the AAD statements come first; with no case matched both names are unbound (same exception kind)
+    match assocData p with
+    | .error e => (s, some e)
+    | .ok aad =>
+      match d? with
+      | none => (s, some .unbound)
+      | some d =>
+        match decDecrypt P d p.payload pn aad p.isServer with
+        | .error e => (s, some e)
+        | .ok pt =>
+          match Frame.parseFrames pt with
+          | none => (s, some .index)
+          | some fs => handleFrames P s p fs
+
 /-- `decrypt_packet`: the state afterwards and the exception its try/except swallowed -/
 def decryptPacket (P : Params σ) (s : St σ) (p : Pkt) : St σ × Option PyErr :=
   match selectDecryptor P s p with
   | (s, .error e) => (s, some e)
-  | (s, .ok d?) =>
-    match getFullPn s p with
-    | (s, .error e) => (s, some e)
-    | (s, .ok pn) =>
-      -- the AAD statements come first; with no case matched both names are unbound (same exception kind)
-      match assocData p with
-      | .error e => (s, some e)
-      | .ok aad =>
-        match d? with
-        | none => (s, some .unbound)
-        | some d =>
-          match decDecrypt P d p.payload pn aad p.isServer with
-          | .error e => (s, some e)
-          | .ok pt =>
-            match Frame.parseFrames pt with
-            | none => (s, some .index)
-            | some fs => handleFrames P s p fs
+  | (s, .ok d?) => decryptRest P s p d?
 
 /-! ### handle_quic_packet / handle_packet -/
 
@@ -493,6 +496,15 @@ def escapes (P : Params σ) (s : St σ) : List Pkt → Option PyErr
     match (stepPkt P s p).escaped with
     | some e => some e
     | none => escapes P (stepPkt P s p).st ps
+
+/-- the swallowed exceptions of `handleQuicPackets`, packet by packet -/
+def caughtList (P : Params σ) (s : St σ) : List Pkt → List (Option PyErr)
+  | [] => []
+  | p :: ps =>
+    (stepPkt P s p).caught ::
+      match (stepPkt P s p).escaped with
+      | some _ => []
+      | none => caughtList P (stepPkt P s p).st ps
 
 /-- `packet_isserver(packet, dcid)`; `fromClientAddr` = `packet.ip_src == self.client_ip and packet.sport == self.client_port` -/
 def packetIsServer (s : St σ) (fromClientAddr : Bool) (dcid : Bytes) : Bool :=
